@@ -1,0 +1,18 @@
+//go:build verif
+
+package compression
+
+import "io"
+
+// Exports for the verification harness (/verif). Compiled only with -tags verif; adds no behaviour.
+
+// VerifBufferedReader exposes newBufferedReader; HasBuffer reports whether the pooled
+// buffer is still held.
+type VerifBufferedReader struct{ r *bufferedReader }
+
+func VerifNewBufferedReader(r io.Reader) *VerifBufferedReader {
+	return &VerifBufferedReader{newBufferedReader(r)}
+}
+func (v *VerifBufferedReader) Read(p []byte) (int, error) { return v.r.Read(p) }
+func (v *VerifBufferedReader) Peek(n int) ([]byte, error) { return v.r.Peek(n) }
+func (v *VerifBufferedReader) HasBuffer() bool            { return v.r.buf != nil }
